@@ -12267,7 +12267,25 @@ func (p *parser) visitClass(nameScopeLoc logger.Loc, class *js_ast.Class, defaul
 	// If we changed private symbol lowering decisions, then recompute class
 	// lowering info because that may have changed other decisions too
 	if recomputeClassLoweringInfo {
+		wasLoweringAllStaticFields := classLoweringInfo.lowerAllStaticFields
 		classLoweringInfo = p.computeClassLoweringInfo(class)
+
+		// The brand check rule above may have newly caused all static fields to be
+		// lowered. If that moves a static initializer out of the class body, then
+		// all private members must be lowered for the same reason as above.
+		if classLoweringInfo.lowerAllStaticFields && !wasLoweringAllStaticFields {
+			for _, prop := range class.Properties {
+				if prop.Kind == js_ast.PropertyClassStaticBlock || (prop.Flags.Has(js_ast.PropertyIsStatic) && !prop.Kind.IsMethodDefinition()) {
+					for _, prop := range class.Properties {
+						if private, ok := prop.Key.Data.(*js_ast.EPrivateIdentifier); ok {
+							p.symbols[private.Ref.InnerIndex].Flags |= ast.PrivateSymbolMustBeLowered
+						}
+					}
+					classLoweringInfo = p.computeClassLoweringInfo(class)
+					break
+				}
+			}
+		}
 	}
 
 	p.pushScopeForVisitPass(js_ast.ScopeClassName, nameScopeLoc)
